@@ -759,7 +759,8 @@ bool TypeAuditor::ViRecursion(Cursor iter) {
 
   { 
     const auto guard = noWarnings.CreateGuard();
-    for (auto retries = typeDeductionDepth; retries > 0; --retries) {
+    auto isStable = false;
+    for (auto retries = typeDeductionDepth; retries > 0 && !isStable; --retries) {
       ClearLocalVariables();
       if (!VisitChildDeclaration(iter, 0, std::get<Typification>(iterationValue.value()))) {
         return false;
@@ -768,10 +769,19 @@ bool TypeAuditor::ViRecursion(Cursor iter) {
       if (!newIteration.has_value()) {
         return false;
       }
-      if (std::get<Typification>(newIteration.value()) == std::get<Typification>(iterationValue.value())) {
-        break;
+      isStable = std::get<Typification>(newIteration.value()) == std::get<Typification>(iterationValue.value());
+      if (!isStable) {
+        std::swap(iterationValue, newIteration);
+        if (retries == 1) {
+          OnError(
+            SemanticEID::typesNotEqual,
+            iter(iterationIndex).pos.start,
+            iterationValue.value(),
+            newIteration.value()
+          );
+          return false;
+        }
       }
-      iterationValue = newIteration;
     }
   }
 
